@@ -7,6 +7,7 @@ pub mod diag;
 pub mod dispatch;
 pub mod adapter;
 pub mod codes;
+pub mod memwords;
 pub mod modelval;
 pub mod readers;
 pub mod tables;
@@ -26,6 +27,8 @@ pub fn run(id: &str, ctx: &Ctx) -> (CheckMeta, Outcome) {
         "C10" => dispatch::c10(ctx),
         "C11" => adapter::c11(ctx),
         "C12" => writers::c12(ctx),
+        "C13" => memwords::c13(ctx),
+        "C14" => writers::c14(ctx),
         _ => {
             println!("unknown property {}", id);
             std::process::exit(2);
@@ -48,6 +51,7 @@ pub fn replay_file(path: &str) -> i32 {
             "item" => crate::streams::replay_item(r, &diag),
             "len" => codes::replay_len(r),
             "disp" => dispatch::replay(r),
+            "memwords" => memwords::replay(r),
             "adapter-env" | "adapter-cursor" => adapter::replay(r),
             k => (vec![format!("unknown replay kind {:?}", k)], false),
         }
